@@ -282,14 +282,15 @@ def real_events(run: Run, count: int) -> list[dict[str, Any]]:
                 sizes = [1, 2, 3, 5, 8] if count < 30 else [1, 2, 3, 5, 8, 55, 56, 57, 130]
                 if ec != secp256k1:
                     sizes = [1, 3]
-                for size in sizes:
-                    hf = hashlib.sha256
+                # (the small sizes -- the batch of one among them -- also under the other digest lengths: a batch verifies under the hash it was asked under)
+                for size, hname_b in [(sz, "sha256") for sz in sizes] + [(sz, hn) for hn in ("sha1", "sha512") for sz in (1, 2, 3)]:
+                    hf = HFS[hname_b]
                     base = []
                     for j in range(min(size, 12)):
                         d = rnd.randrange(1, ec.n)
                         m = rnd.randbytes(rnd.choice([0, 32, 50]))
                         try:
-                            sg = ssa.sign_(m, d, bytes(32), ec, hf)
+                            sg = ssa.sign_(m, d, bytes(hf().digest_size), ec, hf)
                         except BTClibException as e:
                             run.violation(f"ssa|real|sign_|refused|{name}", f"sign_ refused a valid key/message on {name}: {e}", {"curve": name})
                             continue
@@ -340,7 +341,16 @@ def real_events(run: Run, count: int) -> list[dict[str, Any]]:
                             if k not in seen:
                                 seen[k] = 1
                                 items.append({"x": nat(q["x"]), "m": q["m"].hex(), "r": nat(q["r"]), "s": nat(q["s"])})
-                        evs.append({"op": "batch", "tag": tag, "label": f"{label}|size={size}", "c": c, "hf": "sha256", "items": items, "out": bool(o)})
+                        evs.append({"op": "batch", "tag": tag, "label": f"{label}|size={size}|{hname_b}", "c": c, "hf": hname_b, "items": items, "out": bool(o)})
+                    if hname_b != "sha256":
+                        # the members of a batch made under sha256, asked under this hash: they do not verify, nor does the batch
+                        other = [{"x": mult(7 + j, ec=ec)[0], "m": b"m%d" % j, **(lambda g: {"r": g.r, "s": g.s})(ssa.sign_(b"m%d" % j, 7 + j, bytes(32), ec, hashlib.sha256))} for j in range(size)]
+                        try:
+                            o2 = ssa.batch_verify_([q["m"] for q in other], [q["x"] for q in other], [ssa.Sig(q["r"], q["s"], ec, check_validity=False) for q in other], hf)
+                            evs.append({"op": "batch", "tag": tag, "label": f"signed under sha256, asked under {hname_b}|size={size}", "c": c, "hf": hname_b,
+                                        "items": [{"x": nat(q["x"]), "m": q["m"].hex(), "r": nat(q["r"]), "s": nat(q["s"])} for q in other], "out": bool(o2)})
+                        except Exception as e:  # noqa: BLE001
+                            run.violation(f"ssa|real|batch_verify_|raised|{type(e).__name__}", f"batch_verify_ raised {type(e).__name__}: {e} (other hash, size {size}, {name})", {"curve": name})
     finally:
         if start:
             set_libsecp256k1_serving(serving=start)
